@@ -486,6 +486,22 @@ def compare_tol(rec, exp, rtol, floor=0.0):
 
 
 FLOOR = {"nn_softmax": 1.0, "nn_softmin": 1.0, "nn_cosine_similarity": 1.0}
+NORM_OPS = ("nn_batch_norm", "nn_layer_norm", "nn_instance_norm", "nn_group_norm")
+
+
+def scale_floor(m):
+    """magnitude against which rounding errors are judged.  The normalisations end in z*weight + bias, which can cancel
+    to ~0 although both terms are O(1) (e.g. weight = -bias, z ~ 1): errors are relative to max|z|*max|weight| + max|bias|,
+    not to the (possibly tiny) result."""
+    op = m["op"]
+    if op in NORM_OPS:
+        m1 = dict(m)
+        m1["w"] = [1.0] * len(m["w"])
+        m1["b"] = [0.0] * len(m["b"])
+        z = expected(m1)
+        zmax = float(np.max(np.abs(z))) if z is not None and z.size else 0.0
+        return zmax * max(abs(t) for t in m["w"]) + max(abs(t) for t in m["b"])
+    return FLOOR.get(op, 0.0)
 
 
 def describe(m):
@@ -525,9 +541,10 @@ def oracle(ctx, cr):
     if op in EXACT_OPS:
         why = compare_tol(cr.rec, exp, 0.0)
     else:
-        why = compare_tol(cr.rec, exp, RTOL[dt], FLOOR.get(op, 0.0))
+        floor = scale_floor(m)
+        why = compare_tol(cr.rec, exp, RTOL[dt], floor)
     if why:
-        if why.startswith("element") and op not in EXACT_OPS and compare_tol(cr.rec, exp, 1e-4, FLOOR.get(op, 0.0)) is None:
+        if why.startswith("element") and op not in EXACT_OPS and compare_tol(cr.rec, exp, 1e-4, scale_floor(m)) is None:
             # right value, computed with less precision than the element type promises: one cause, one key
             ctx.violation("%s:%s:precision" % (op, dt), "%s %s: %s" % (op, det["case"], why), det)
         elif op in EXACT_OPS:
